@@ -306,7 +306,7 @@ Qed.
 Lemma ipprogram_bounded n st : AN_HEADER_SIZE < n -> bounded n (handle_ipprogram n st).
 Proof. intros Hn. unfold handle_ipprogram. an_unfold. repeat bstep. Qed.
 
-Lemma artnet_bounded n st : n <= AN_PACKET_SIZE -> bounded n (artnet_handle n st).
+Lemma artnet_bounded_any n st : n <= 2147483647 -> bounded n (artnet_handle n st).
 Proof.
   intros Hn. unfold artnet_handle.
   destruct (n <=? AN_HEADER_SIZE) eqn:E0; [constructor|].
@@ -322,3 +322,7 @@ Proof.
   destruct (op =? AN_OP_IP_PROGRAM); [apply ipprogram_bounded; assumption|].
   constructor.
 Qed.
+
+(* for the capacity of the real receive buffer *)
+Lemma artnet_bounded n st : n <= AN_PACKET_SIZE -> bounded n (artnet_handle n st).
+Proof. intros Hn. apply artnet_bounded_any. unfold AN_PACKET_SIZE in Hn. lia. Qed.
